@@ -55,8 +55,14 @@ IGNORE_KEYS = {
 SUBSETS = [tuple(c for c, bit in zip(CATS, bits) if bit) for bits in itertools.product((0, 1), repeat=6)]
 
 
+def _type_changes_under_one_id(case):
+    """A cell id that names cells of different types in a and b (a structural change outside the six categories)."""
+    ta = {c["id"]: c["cell_type"] for c in case["a"]["cells"] if "id" in c}
+    return any(c.get("id") in ta and ta[c["id"]] != c["cell_type"] for c in case["b"]["cells"])
+
+
 def valid(case):
-    return not N.schema_errors(case["a"]) and not N.schema_errors(case["b"])
+    return not N.schema_errors(case["a"]) and not N.schema_errors(case["b"]) and not _type_changes_under_one_id(case)
 
 
 def precheck(case):
@@ -76,8 +82,32 @@ def rich_pair(draw):
     """A pair whose difference touches many categories at once."""
     minor = draw(st.sampled_from([5, 5, 4, 2]))
     a = draw(N.notebook(minor=minor, min_cells=2, max_cells=4))
+    special = draw(st.sampled_from([None] * 8 + ["shift_output_counts", "permute_ids"]))
+    code = [c for c in a["cells"] if c["cell_type"] == "code"]
+    if special == "shift_output_counts" and code:
+        # a cell whose execute_result outputs are indistinguishable but for their execution counts (the same value shown again)
+        c = draw(st.sampled_from(code))
+        n = draw(st.integers(2, 3))
+        c["outputs"] = [{"output_type": "execute_result", "data": {"text/plain": "42"}, "metadata": {}, "execution_count": k + 1} for k in range(n)]
     b = copy.deepcopy(a)
     cells = b["cells"]
+    if special == "shift_output_counts" and code:
+        for c in cells:
+            for o in c.get("outputs", []):
+                if o.get("output_type") == "execute_result" and o["data"] == {"text/plain": "42"}:
+                    o["execution_count"] += 1
+        if draw(st.booleans()):
+            return a, b
+    if special == "permute_ids" and minor >= 5 and len(cells) >= 2:
+        # the same cells in the same order, their ids exchanged (both notebooks re-created from a template)
+        for ct in ("code", "markdown", "raw"):           # among cells of one type (a type change under one id is out of scope)
+            grp = [c for c in cells if c["cell_type"] == ct]
+            if len(grp) >= 2:
+                ids = [c["id"] for c in grp]
+                for c, cid in zip(grp, ids[1:] + ids[:1]):
+                    c["id"] = cid
+        if draw(st.booleans()):
+            return a, b
     for i, c in enumerate(cells):
         kinds = draw(st.lists(st.sampled_from(["source", "outputs", "outputs", "metadata", "ec", "attach", "id", "outmeta", "rerun", "none"]),
                               min_size=1, max_size=3))
@@ -435,4 +465,22 @@ def _cells_with_similar_sources(case, f):
     return False
 
 
-DISCRIMINATORS = {"cells_with_indistinguishable_sources": _cells_with_similar_sources}
+def _indistinguishable_outputs(case, f):
+    """Some cell holds two execute_result outputs equal but for their execution counts: the output aligner tells them apart by the count."""
+    for nb in (case["a"], case["b"]):
+        for c in nb["cells"]:
+            outs = [canon({k: v for k, v in o.items() if k != "execution_count"}) for o in c.get("outputs", []) if o.get("output_type") == "execute_result"]
+            if len(outs) != len(set(outs)):
+                return True
+    return False
+
+
+def _ids_permuted(case, f):
+    """Some cell of b carries, at its position, an id that a gives to a cell at another position: the cell aligner follows the ids."""
+    ia = [c.get("id") for c in case["a"]["cells"]]
+    ib = [c.get("id") for c in case["b"]["cells"]]
+    return any(x is not None and x in ia and ia.index(x) != k for k, x in enumerate(ib)) and sorted(map(str, ia)) != [] and ia != ib
+
+
+DISCRIMINATORS = {"cells_with_indistinguishable_sources": _cells_with_similar_sources,
+                  "outputs_equal_but_for_execution_count": _indistinguishable_outputs, "ids_exchanged_between_positions": _ids_permuted}
